@@ -58,6 +58,9 @@ def event(draw, ids=(None, "a", "b", "c"), routes=ROUTE, statuses=INTERIM + INTE
 def kwargs_of(ev):
     """The keyword arguments of one status() call (fresh objects every time)."""
     kw = dict(ev)
+    for f in ("test_id", "test_status", "file_name", "mime_type", "route_code"):
+        if isinstance(kw[f], str):
+            kw[f] = (kw[f] + " ")[:-1]        # a string object made at run time, not the interned literal
     kw["timestamp"] = ts(ev["timestamp"])
     t = ev["test_tags"]
     kw["test_tags"] = None if t is None else (frozenset(t) if isinstance(t, frozenset) else set(t))
